@@ -30,11 +30,17 @@ pub fn nla_available() -> bool {
 
 /// plug the honest CredSSP/NTLM server into the world; returns its result record
 pub fn install_nla(world: &crate::refsrv::world::World, cfg: &session::ClientCfg) -> std::rc::Rc<std::cell::RefCell<crate::refsrv::nla::NlaResults>> {
-    let nla = {
+    install_nla_custom(world, cfg, |_| {})
+}
+
+/// same, with a last word on the server's configuration
+pub fn install_nla_custom(world: &crate::refsrv::world::World, cfg: &session::ClientCfg, tweak: impl FnOnce(&mut crate::refsrv::nla::Nla)) -> std::rc::Rc<std::cell::RefCell<crate::refsrv::nla::NlaResults>> {
+    let mut nla = {
         let mut ctx = world.ctx.borrow_mut();
         session::seed_client_randomness(&mut ctx);
         session::make_nla(&mut ctx, cfg)
     };
+    tweak(&mut nla);
     let res = nla.results.clone();
     world.server.borrow_mut().nla = Some(Box::new(nla));
     res
